@@ -94,68 +94,195 @@ impl<'a> Cur<'a> {
             Ok(false)
         }
     }
-    fn elem(&mut self) -> Result<DElem, String> {
-        self.eat("Element { name: ")?;
-        let name = self.string()?;
-        self.eat(", text: ")?;
-        let text = if self.peek_is("None") {
-            self.eat("None")?;
-            false
-        } else {
-            self.eat("Some(")?;
-            self.string()?;
-            self.eat(")")?;
-            true
-        };
-        self.eat(", standalone: ")?;
-        let standalone = self.boolean()?;
-        self.eat(", count: ")?;
-        let count = self.number()?;
-        self.eat(", attributes: [")?;
-        let mut attrs = Vec::new();
-        while !self.peek_is("]") {
-            if !attrs.is_empty() {
-                self.eat(", ")?;
-            }
-            let m = self.nec()?;
-            let a = self.string()?;
-            self.eat(")")?;
-            attrs.push((m, a));
+    fn ident(&mut self) -> String {
+        let start = self.i;
+        while self.s.get(self.i).map_or(false, |c| c.is_alphanumeric() || *c == '_') {
+            self.i += 1;
         }
-        self.eat("], children: [")?;
-        let mut children = Vec::new();
-        while !self.peek_is("]") {
-            if !children.is_empty() {
-                self.eat(", ")?;
-            }
-            let m = self.nec()?;
-            let c = self.elem()?;
-            self.eat(")")?;
-            children.push((m, c));
-        }
-        self.eat("], position: ")?;
-        let position = if self.peek_is("None") {
-            self.eat("None")?;
-            None
-        } else {
-            self.eat("Some(")?;
-            let n = self.number()?;
-            self.eat(")")?;
-            Some(n)
-        };
-        self.eat(" }")?;
-        Ok(DElem { name, text, standalone, count, attrs, children, position })
+        self.s[start..self.i].iter().collect()
     }
+    fn skip_ws(&mut self) {
+        while self.s.get(self.i).map_or(false, |c| c.is_whitespace()) {
+            self.i += 1;
+        }
+    }
+    /// any value of a derived `Debug` rendering (`{:?}`, not the pretty form)
+    fn value(&mut self) -> Result<V, String> {
+        self.skip_ws();
+        match self.s.get(self.i) {
+            Some('"') => Ok(V::Str(self.string()?)),
+            Some('[') => {
+                self.i += 1;
+                let mut items = Vec::new();
+                loop {
+                    self.skip_ws();
+                    if self.peek_is("]") {
+                        self.i += 1;
+                        return Ok(V::List(items));
+                    }
+                    if !items.is_empty() {
+                        self.eat(",")?;
+                    }
+                    items.push(self.value()?);
+                }
+            }
+            Some(c) if c.is_ascii_digit() => Ok(V::Num(self.number()?)),
+            Some(c) if c.is_alphabetic() || *c == '_' => {
+                let id = self.ident();
+                match id.as_str() {
+                    "true" => return Ok(V::Bool(true)),
+                    "false" => return Ok(V::Bool(false)),
+                    _ => {}
+                }
+                if self.peek_is("(") {
+                    self.i += 1;
+                    let mut items = Vec::new();
+                    loop {
+                        self.skip_ws();
+                        if self.peek_is(")") {
+                            self.i += 1;
+                            return Ok(V::Tuple(id, items));
+                        }
+                        if !items.is_empty() {
+                            self.eat(",")?;
+                        }
+                        items.push(self.value()?);
+                    }
+                }
+                if self.peek_is(" {") {
+                    self.eat(" {")?;
+                    let mut fields = Vec::new();
+                    loop {
+                        self.skip_ws();
+                        if self.peek_is("}") {
+                            self.i += 1;
+                            return Ok(V::Struct(id, fields));
+                        }
+                        if !fields.is_empty() {
+                            self.eat(",")?;
+                            self.skip_ws();
+                        }
+                        let f = self.ident();
+                        self.eat(":")?;
+                        fields.push((f, self.value()?));
+                    }
+                }
+                Ok(V::Tuple(id, Vec::new()))
+            }
+            other => Err(format!("unexpected {:?} at {}", other, self.i)),
+        }
+    }
+}
+
+/// a value of a derived `Debug` rendering
+#[derive(Debug, Clone)]
+enum V {
+    Str(String),
+    Num(u64),
+    Bool(bool),
+    List(Vec<V>),
+    Tuple(String, Vec<V>),
+    Struct(String, Vec<(String, V)>),
+}
+
+fn is_nec(v: &V) -> Option<(bool, &V)> {
+    match v {
+        V::Tuple(n, items) if items.len() == 1 && (n == "Mandatory" || n == "Optional") => Some((n == "Mandatory", &items[0])),
+        _ => None,
+    }
+}
+
+/// the seven parts of an element, found by field name where the names are the expected ones and otherwise by the
+/// shape of the value (so that reordered or renamed private fields do not stop the harness)
+fn interpret(v: &V) -> Result<DElem, String> {
+    let fields = match v {
+        V::Struct(_, f) => f,
+        other => return Err(format!("not a struct: {:?}", other)),
+    };
+    let by_name = |n: &str| fields.iter().find(|(k, _)| k == n).map(|(_, v)| v);
+    let name = match by_name("name") {
+        Some(V::Str(s)) => s.clone(),
+        _ => return Err("no field `name`".into()),
+    };
+    let text = match by_name("text") {
+        Some(V::Tuple(n, items)) if n == "Some" && items.len() == 1 => true,
+        Some(V::Tuple(n, items)) if n == "None" && items.is_empty() => false,
+        _ => return Err("no field `text`".into()),
+    };
+    let rest: Vec<&(String, V)> = fields.iter().filter(|(k, _)| k != "name" && k != "text").collect();
+    let pick = |expected: &str, shape: &dyn Fn(&V) -> bool| -> Result<&V, String> {
+        if let Some((_, v)) = rest.iter().find(|(k, v)| k == expected && shape(v)) {
+            return Ok(v);
+        }
+        let cands: Vec<&&(String, V)> = rest.iter().filter(|(_, v)| shape(v)).collect();
+        match cands.len() {
+            1 => Ok(&cands[0].1),
+            n => Err(format!("{} candidates for the field `{}`", n, expected)),
+        }
+    };
+    let standalone = match pick("standalone", &|v| matches!(v, V::Bool(_)))? {
+        V::Bool(b) => *b,
+        _ => unreachable!(),
+    };
+    let count = match pick("count", &|v| matches!(v, V::Num(_)))? {
+        V::Num(n) => *n,
+        _ => unreachable!(),
+    };
+    let position = match pick("position", &|v| matches!(v, V::Tuple(n, items) if (n == "None" && items.is_empty()) || (n == "Some" && matches!(items.as_slice(), [V::Num(_)]))))? {
+        V::Tuple(n, items) if n == "Some" => match items.as_slice() {
+            [V::Num(p)] => Some(*p),
+            _ => None,
+        },
+        _ => None,
+    };
+    // the two lists: by name, otherwise by what they contain
+    let lists: Vec<&&(String, V)> = rest.iter().filter(|(_, v)| matches!(v, V::List(_))).collect();
+    let is_attr_list = |v: &V| matches!(v, V::List(items) if items.iter().all(|i| matches!(is_nec(i), Some((_, V::Str(_))))));
+    let is_child_list = |v: &V| matches!(v, V::List(items) if items.iter().all(|i| matches!(is_nec(i), Some((_, V::Struct(_, _))))));
+    let attrs_v = match lists.iter().find(|(k, v)| k == "attributes" && is_attr_list(v)) {
+        Some((_, v)) => v,
+        None => match lists.iter().filter(|(k, v)| k != "children" && is_attr_list(v)).collect::<Vec<_>>().as_slice() {
+            [one] => &one.1,
+            l if !l.is_empty() && l.iter().all(|c| matches!(&c.1, V::List(i) if i.is_empty())) => &l[0].1,
+            l => return Err(format!("{} candidates for the attribute list", l.len())),
+        },
+    };
+    let children_v = match lists.iter().find(|(k, v)| k == "children" && is_child_list(v)) {
+        Some((_, v)) => v,
+        None => match lists.iter().filter(|(k, v)| k != "attributes" && is_child_list(v) && !std::ptr::eq(v, attrs_v)).collect::<Vec<_>>().as_slice() {
+            [one] => &one.1,
+            l if !l.is_empty() && l.iter().all(|c| matches!(&c.1, V::List(i) if i.is_empty())) => &l[0].1,
+            l => return Err(format!("{} candidates for the child list", l.len())),
+        },
+    };
+    let mut attrs = Vec::new();
+    if let V::List(items) = attrs_v {
+        for i in items {
+            if let Some((m, V::Str(a))) = is_nec(i) {
+                attrs.push((m, a.clone()));
+            }
+        }
+    }
+    let mut children = Vec::new();
+    if let V::List(items) = children_v {
+        for i in items {
+            if let Some((m, c)) = is_nec(i) {
+                children.push((m, interpret(c)?));
+            }
+        }
+    }
+    Ok(DElem { name, text, standalone, count, attrs, children, position })
 }
 
 pub fn parse(debug: &str) -> Result<DElem, String> {
     let chars: Vec<char> = debug.chars().collect();
     let mut c = Cur { s: &chars, i: 0 };
-    let e = c.elem()?;
+    let v = c.value()?;
+    c.skip_ws();
     if c.i != chars.len() {
         return Err("trailing characters".into());
     }
-    Ok(e)
+    interpret(&v)
 }
 
 impl DElem {
